@@ -138,6 +138,7 @@ type crashCase struct {
 	Calls      int    `json:"calls"`
 	K          int    `json:"k"`
 	How        string `json:"how"`
+	Twin       bool   `json:"twin"` // two appenders (descriptors) on the one target file
 }
 
 func cmdCrash(f hx.Flags, r *hx.Result) {
@@ -174,7 +175,7 @@ func cmdCrash(f hx.Flags, r *hx.Result) {
 			if kind == "rolling" && n%4 < 2 {
 				args = append(args, "--churn", "1")
 			}
-			twin := kind != "console" && n%5 == 0
+			twin := kind != "console" && c.Twin
 			if twin {
 				args = append(args, "--twin", "1")
 			}
